@@ -7,6 +7,7 @@ package main
 import (
 	"fmt"
 	"os"
+	"strconv"
 	"go/token"
 	"go/types"
 	"sort"
@@ -32,6 +33,7 @@ type violation struct {
 	Nondet  []nondetVal       `json:"nondet"`
 	Sched   []string          `json:"schedule"`
 	Trace   []int             `json:"decisions"`
+	Clock   bool              `json:"uses_clock_stub"`
 }
 
 type nondetVal struct {
@@ -39,6 +41,43 @@ type nondetVal struct {
 	Kind  string `json:"kind"`
 	Value string `json:"value"` // decimal, true/false, or hex for strings/bytes
 }
+
+type invariantRec struct {
+	name string
+	fn   value
+}
+
+// checkInvariants evaluates the harness' state invariants at a scheduling point.
+func (r *run) checkInvariants() {
+	if len(r.invariants) == 0 || r.inInvariant || r.dead {
+		return
+	}
+	r.inInvariant = true
+	r.atomicDepth++
+	defer func() { r.atomicDepth--; r.inInvariant = false }()
+	for _, inv := range r.invariants {
+		res := r.call(nil, token.NoPos, inv.fn, nil)
+		ok := true
+		switch b := res.(type) {
+		case bool:
+			ok = b
+		case *sym:
+			if r.solver.CheckWith(smtNot(b.t)) == Sat {
+				ok = false
+			} else {
+				r.assertPC(b.t)
+			}
+		}
+		if !ok {
+			r.addViolation(violation{Kind: "assert", Msg: "invariant violated: " + inv.name}, true)
+			panic(pathEnd{"invariant"})
+		}
+	}
+}
+
+// parseApp records an application of the uninterpreted ParseInt contract to a string term,
+// so that a counterexample can be concretised into a string that really parses that way.
+type parseApp struct{ str, okF, valF string }
 
 type thread struct {
 	id        int
@@ -137,6 +176,11 @@ type run struct {
 	tickBound    bool
 	traceCalls   bool
 	daemons      []string
+	parseApps    []parseApp
+	raceTimers   bool
+	invariants   []invariantRec
+	inInvariant  bool
+	raceSet      bool
 	atomicDepth  int
 }
 
@@ -410,6 +454,7 @@ type schedOption struct {
 // schedule picks the next thread to run. canContinue: the caller is at a
 // yield point and could simply go on.
 func (r *run) schedule(canContinue bool) {
+	r.checkInvariants()
 	cur := r.cur
 	for {
 		if r.dead {
@@ -444,7 +489,11 @@ func (r *run) schedule(canContinue bool) {
 			}
 		}
 		if len(tms) > 0 {
-			if r.h.maximalProgress {
+			maxProg := r.h.maximalProgress
+			if r.raceSet {
+				maxProg = !r.raceTimers
+			}
+			if maxProg {
 				if len(opts) == 0 {
 					opts = append(opts, tms...)
 				}
@@ -948,6 +997,8 @@ func (r *run) addViolation(v violation, needModel bool) {
 	r.violations = append(r.violations, v)
 }
 
+func (r *run) usesClock() bool { return r.now != "" || r.nowC != 0 }
+
 func (r *run) fillModel(v *violation) {
 	names := make([]string, 0, len(r.vars))
 	for _, d := range r.vars {
@@ -955,12 +1006,42 @@ func (r *run) fillModel(v *violation) {
 	}
 	vals := r.solver.GetValues(names)
 	v.Model = vals
+	v.Clock = r.usesClock()
+	// concretise strings that went through the uninterpreted ParseInt contract
+	override := map[string]string{}
+	for _, pa := range r.parseApps {
+		isVar := false
+		for _, d := range r.vars {
+			if d.Name == pa.str {
+				isVar = true
+			}
+		}
+		if !isVar {
+			continue
+		}
+		okT := "(" + pa.okF + " " + pa.str + ")"
+		valT := "(" + pa.valF + " " + pa.str + ")"
+		res := r.solver.GetValues([]string{okT, valT})
+		if res[okT] == "true" {
+			if n, ok := parseSmtInt(res[valT]); ok {
+				override[pa.str] = fmt.Sprint(n)
+			}
+		} else {
+			cur := parseSmtStr(vals[pa.str])
+			if _, err := strconv.ParseInt(cur, 10, 64); err == nil && cur != "" {
+				override[pa.str] = cur + "x"
+			}
+		}
+	}
 	for _, d := range r.nondets {
 		nv := nondetVal{Label: d.Label, Kind: d.Kind}
 		raw := vals[d.Name]
 		switch d.sort {
 		case SStr, SBytes:
 			nv.Value = fmt.Sprintf("%x", parseSmtStr(raw))
+			if o, ok := override[d.Name]; ok {
+				nv.Value = fmt.Sprintf("%x", o)
+			}
 		case SBool:
 			nv.Value = raw
 		case SInt:
